@@ -74,7 +74,18 @@ def rule_passthrough(ctx):
     ctx.check(ok, 'R12.3/pos', f.construct('POS'), "POS = locus.start + 1 = record.pos", "POS is not the input record's position", f.where())
 
 
+def rule_labels(ctx):
+    """`mchap call` and `call-pedigree` sample over the un-masked subset of the input alleles and map the result back to the allele
+    numbers of the record; a label vector that is not the plain vector of kept positions (narrowed by a cast, say) turns called
+    alleles into negative numbers, which the writer renders as '.' in a record without NOA/AF0"""
+    from .c14 import relabel_vector
+    relabel_vector(ctx, 'R12.4/labels', "called alleles are mapped back through the plain vector of kept positions",
+                   "the vector mapping sampled alleles back to allele numbers of the record is not the plain vector of kept positions: "
+                   "allele numbers can wrap or go missing and the genotype is written with '.' alleles")
+
+
 def run(ctx):
+    rule_labels(ctx)
     rule_tables(ctx)
     rule_passthrough(ctx)
     rule_from_record(ctx)
